@@ -54,11 +54,13 @@ theorem C05_search_ok (s : Store) (root : Ino) (v : View) (hwf : WF s root) (hn 
   searchOK_of_wf s root v hwf hn hv
 
 /-- A call that fails leaves the whole state exactly as it was (RemoveAll and handle operations apart; Chdir only
-    re-binds the same view, see `C05_failed_chdir`). -/
+    re-binds the same view, see `C05_failed_chdir`).  `hw`: the data of a WriteFile fits in a file; beyond
+    `maxFileSize` WriteFile creates or truncates the file and then fails with EINVAL in Write. -/
 theorem C05_failed_unchanged (st : FSState) (vid : Nat) (c : Call) (e : Err) (h : (step st vid c).2 = .err e)
     (hc : ∀ p, c ≠ .removeAll p) (hf : ∀ hid op, c ≠ .file hid op)
-    (hcd : ∀ p, c ≠ .chdir p) : (step st vid c).1 = st :=
-  step_failed_unchanged st vid c e h hc hf hcd
+    (hcd : ∀ p, c ≠ .chdir p)
+    (hw : ∀ p d perm, c = .writeFile p d perm → d.length ≤ maxFileSize) : (step st vid c).1 = st :=
+  step_failed_unchanged st vid c e h hc hf hcd hw
 
 theorem C05_failed_chdir (st : FSState) (vid : Nat) (p : Bytes) (e : Err) (h : (step st vid (.chdir p)).2 = .err e) :
     (step st vid (.chdir p)).1.store = st.store ∧ ∀ w, (step st vid (.chdir p)).1.view w = st.view w :=
